@@ -108,6 +108,9 @@ def run(chk, tier, proof_ok):
     lf, nl = realsearch.ladder_state_roundtrip_findings(chk.seed * 41 + 5, 40 if full else 8)
     findings = findings + [f for f in lf if f[0] in ('state-roundtrip-ladder-incoherent', 'state-roundtrip-ladder-raises')]
     st['nonmonotone_ladder_roundtrips'] = nl
+    rf, rst = realsearch.ladder_reassign_findings(chk.seed)
+    findings = findings + rf
+    st['reassigned_ladders'] = rst
     chk.coverage['search'] = dict(st, oracle='ptchain.betas == [level.beta] == sampler.betas after every iteration; '
                                   'end points fixed; strict order with the default infinite hottest temperature')
     chk.coverage['evaluations'] = chk.coverage.get('evaluations', 0) + st['configurations']
